@@ -29,7 +29,7 @@ fn fixed_point(out: &mut Out, rng: &mut Rng, what: &str, a: Fmt, b: Fmt, input: 
 		out.count("first_hop.refused");
 		return None;
 	}
-	for supply in [Supply::Slice, random_supply(rng)] {
+	for supply in [Supply::Slice, Supply::Reader(vec![]), random_supply(rng)] {
 		let again = translate(&first.output, &supply, Some(b), b);
 		out.eval("fixed_point", &format!("{}{}{}{}", a.name(), b.name(), supply.describe(), hex(input)), !first.output.is_empty());
 		if !again.ok() || again.output != first.output {
@@ -174,6 +174,37 @@ pub fn run(out: &mut Out, rng: &mut Rng, thorough: bool) {
 				out.count("wide.tried");
 				fixed_point(out, rng, "wide", a, b, &input);
 				there_and_back(out, rng, &v, a, b, &input);
+			}
+		}
+	}
+	// Collections wider than any preallocation cap, and past the 16-bit header.
+	for n in [4096usize, 4097, 5000, 65536] {
+		let arr = Val::Seq((0..n).map(|i| Val::Int((i % 9) as i128)).collect());
+		let map = Val::Map((0..n).map(|i| (Val::Str(format!("k{i}")), Val::Int(1))).collect());
+		for v in [arr, map] {
+			for &a in &[Fmt::Json, Fmt::Msgpack] {
+				let Some(input) = spell(a, &v, &Spelling::plain()) else { continue };
+				for &b in &[Fmt::Json, Fmt::Msgpack] {
+					out.count("sizes.tried");
+					fixed_point(out, rng, "size-boundary", a, b, &input);
+					there_and_back(out, rng, &v, a, b, &input);
+				}
+			}
+		}
+	}
+	// Large non-ASCII documents (tens of KiB of 2-, 3- and 4-byte characters at
+	// every alignment relative to 8 KiB / 16 KiB read boundaries).
+	for pad in 0..4usize {
+		for ch in ["é", "€", "😀", "日本"] {
+			let text: String = std::iter::repeat(ch).take(45_000 / ch.len()).collect();
+			let v = Val::Map(vec![(Val::Str("p".into()), Val::Str("x".repeat(pad))), (Val::Str("t".into()), Val::Str(text))]);
+			for &a in &[Fmt::Json, Fmt::Yaml] {
+				let Some(input) = spell(a, &v, &Spelling::plain()) else { continue };
+				for &b in &[Fmt::Yaml, Fmt::Json, Fmt::Msgpack] {
+					out.count("bigtext.tried");
+					fixed_point(out, rng, "big-multibyte", a, b, &input);
+					there_and_back(out, rng, &v, a, b, &input);
+				}
 			}
 		}
 	}
